@@ -38,19 +38,18 @@ def checkedNextPow2 (W v : Nat) : Option Nat :=
   if nextPow2 v < 2 ^ W then some (nextPow2 v) else none
 def wrappingNextPow2 (W v : Nat) : Nat := if nextPow2 v < 2 ^ W then nextPow2 v else 0
 
-/-- `Σ_{i<k} bit_i(v) · 2^(W-1-i)` accumulated for `i = k-1 … 0` -/
-def reverseBitsAux (W v : Nat) : Nat → Nat
-  | 0 => 0
-  | k + 1 => (v / 2 ^ k % 2) * 2 ^ (W - 1 - k) + reverseBitsAux W v k
-/-- the `W`-bit pattern read backwards -/
-def reverseBits (W v : Nat) : Nat := reverseBitsAux W v W
+/-- the `W`-bit pattern read backwards: the lowest bit goes to position `W-1`, the remaining bits are
+    the reversal of the upper `W-1` bits -/
+def reverseBits : Nat → Nat → Nat
+  | 0, _ => 0
+  | W + 1, v => (v % 2) * 2 ^ W + reverseBits W (v / 2)
 
-/-- `Σ_{i<k} byte_i(v) · 256^(nb-1-i)` -/
-def swapBytesAux (nb v : Nat) : Nat → Nat
-  | 0 => 0
-  | k + 1 => (v / 256 ^ k % 256) * 256 ^ (nb - 1 - k) + swapBytesAux nb v k
+/-- `nb` bytes in reverse order: the lowest byte goes to position `nb-1` -/
+def swapBytesAux : Nat → Nat → Nat
+  | 0, _ => 0
+  | nb + 1, v => (v % 256) * 256 ^ nb + swapBytesAux nb (v / 256)
 /-- the `W/8` bytes of the pattern in reverse order -/
-def swapBytes (W v : Nat) : Nat := swapBytesAux (W / 8) v (W / 8)
+def swapBytes (W v : Nat) : Nat := swapBytesAux (W / 8) v
 
 /-- sign of an exact integer as an exact integer -/
 def signum (z : Int) : Int := if z < 0 then -1 else if z = 0 then 0 else 1
